@@ -19,6 +19,9 @@ def oneK : K := ((1 : Nat) : K)
 
 def absK (x : K) : K := if x < (zeroK : K) then -x else x
 
+def twoK : K := ((2 : Nat) : K)
+def halfK : K := oneK / ((2 : Nat) : K)
+
 def swapIdx {n : Nat} (a b j : Fin n) : Fin n := if j = a then b else if j = b then a else j
 
 def rowSwap {n : Nat} (a b : Fin n) (m : Mat n K) : Mat n K := Mat.ofFn fun i j => m.get (swapIdx a b i) j
